@@ -12,7 +12,8 @@ import numpy as np
 
 from checks import vinelib
 from copsim import refs
-from copsim.core import Ctx, outcome_class
+from copsim.core import Ctx, outcome, outcome_class
+from copsim.seams import Poison, sterile
 
 PROPERTY = 'C16'
 LEVEL = 'exploration'
@@ -58,6 +59,9 @@ def generate(rng, tier, idx):
         if rng.random() < 0.5:
             configs.append({'type': vt, 'trunc': None})     # fit(X): the documented default, 3
     patterns = ['nan', 'noise'] + [rng.choice(['big', 'negbig', 'ones', 'zero'])]
+    for k, cfg in enumerate(configs):
+        if (idx + k) % 3 == 0:
+            cfg['use'] = True           # the fitted vine is used, then inspected once more
     return {'table': table, 'ops': configs, 'poisons': patterns,
             'pseed': rng.randrange(1000), 'prefit': rng.random() < 0.3,
             'prefit_trunc': rng.randint(1, d)}
@@ -136,6 +140,30 @@ def execute(run):
                     ctx.violate('regular_first_tree_is_maximum_spanning_tree', SUBJECT,
                                 'first tree weight %.12f, maximum spanning tree weight %.12f'
                                 % (w, want_mst), **cond)
+            if cfg.get('use'):
+                # "after fit" does not end with the first call: sampling from the vine,
+                # evaluating it and exporting it are reads - the structure found above must
+                # still be there afterwards
+                sig0 = vinelib.structure_signature(vine)
+                with sterile(run['pseed'] + 3), Poison(p, seed=run['pseed']):
+                    used = [outcome_class(outcome(vine.sample, 2)),
+                            outcome_class(outcome(vine.get_likelihood, np.full(d, 0.4))),
+                            outcome_class(outcome(vine.to_dict))]
+                ctx.stats['structure_rechecked_after_use'] += 1
+                ctx.event('use', used)
+                for clause, detail in refs.check_vine(vine.trees, d, cfg['trunc'] or 3, cfg['type']):
+                    if clause in seen:
+                        continue
+                    seen.add(clause)
+                    ctx.violate('regular_vine_after_use:' + clause,
+                                SUBJECT.replace('.fit', '.sample'),
+                                'after sample(2), get_likelihood and to_dict: ' + detail,
+                                clause=clause, **cond)
+                if vinelib.structure_signature(vine) != sig0 and not any(
+                        v['oracle'].startswith('regular_vine_after_use') for v in ctx.violations):
+                    ctx.violate('structure_unchanged_by_use', SUBJECT.replace('.fit', '.sample'),
+                                'edges, conditioning sets or families differ after sample(2), '
+                                'get_likelihood and to_dict', **cond)
             if (cfg['trunc'] or 3) < d - 1:
                 ctx.probes['truncation_below_d_minus_1'] += 1
             if cfg['trunc'] is None:
